@@ -241,10 +241,13 @@ class KMeans(Medoids):
         return means
 
     def fit_fast(self, series, monitor_distances=None):
-        use_c = self.dists_options.use_c
-        self.dists_options.use_c = True
+        use_c = self.dists_options.get('use_c', None)
+        self.dists_options['use_c'] = True
         result = self.fit(series, use_parallel=True, monitor_distances=monitor_distances)
-        self.dists_options.use_c = use_c
+        if use_c is None:
+            del self.dists_options['use_c']
+        else:
+            self.dists_options['use_c'] = use_c
         return result
 
     def fit(self, series, use_parallel=True, monitor_distances=None):
